@@ -198,6 +198,23 @@ mod imp {
     where
         CS: ConcurrentStream<Item = It> + 'static,
     {
+        // what the assembled concurrent stream reports about itself before it is driven: the size hint as plumbed
+        // through the adapter stack and the effective concurrency limit (numbers no source can reach are capped:
+        // the specifications run on 32-bit integers)
+        let cap = |x: usize| std::cmp::min(x, 1_000_000) as i64;
+        let (lo, hi) = cs.size_hint();
+        let lim = cs.concurrency_limit().map(|n| n.get()).unwrap_or(0);
+        with(|w| {
+            let (slo, shi) = w.co_src;
+            w.ev(format_args!(
+                "{{\"e\":\"coview\",\"slo\":{},\"shi\":{},\"lo\":{},\"hi\":{},\"lim\":{}}}",
+                cap(slo),
+                shi.map(cap).unwrap_or(-1),
+                cap(lo),
+                hi.map(cap).unwrap_or(-1),
+                cap(lim)
+            ));
+        });
         Ok(match term {
             "for_each" => Box::pin(async move {
                 cs.for_each(|it: It| {
@@ -284,6 +301,8 @@ mod imp {
         let fut = match v.cont.as_str() {
             "co" => {
                 let s = ItStream(SStream(Child::new(0)));
+                let sh = s.size_hint();
+                with(|w| w.co_src = sh);
                 lvl3(s.co(), &stack, 0, &v.term)?
             }
             "vec" => {
@@ -308,7 +327,10 @@ mod imp {
                     // the source "child" is not an object the combinator owns
                     w.alive[0] = false;
                 });
-                lvl3(items.into_co_stream(), &stack, 0, &v.term)?
+                let cs = items.into_co_stream();
+                let sh = cs.size_hint();
+                with(|w| w.co_src = sh);
+                lvl3(cs, &stack, 0, &v.term)?
             }
             c => return Err(format!("bad co source {}", c)),
         };
